@@ -7,6 +7,7 @@ CONSTANTS
   MaxGens = 1000000
   MaxPost = 1000000
   KeepHist = FALSE
+  DumpVariants = {}
 SPECIFICATION TraceSpec
 CONSTRAINT OnlyGoodExplanations
 INVARIANT TypeOK
